@@ -688,7 +688,7 @@ func ratLit(r *big.Rat, s Sort) string {
 
 func quoteName(n string) string {
 	for _, ch := range n {
-		if !(ch == '_' || ch == '.' || ch == '!' || ch == '#' || ch == '$' || ch == '@' ||
+		if !(ch == '_' || ch == '.' || ch == '!' || ch == '$' ||
 			(ch >= '0' && ch <= '9') || (ch >= 'a' && ch <= 'z') || (ch >= 'A' && ch <= 'Z')) {
 			return "|" + n + "|"
 		}
